@@ -997,15 +997,15 @@ package spec
 //@   loop 0 invariant strElemsKept(parentRefs)
 //@   defines  result1 == nil ==> esDone[skey(*result0)]
 //@   defines  forall x int :: old(esDone[x]) ==> esDone[x]
-//@   ensures  [C03,C02,C09] same-schema-returned @@ result1 == nil ==> *result0 == target
-//@   ensures  [C03,C02,C09] items-visited @@ old(strict(resolver)) && result1 == nil ==> itemsDone(*result0)
-//@   ensures  [C03,C02,C09] definitions-domain-kept @@ forall k string :: triggers(has(target.Definitions, k)) && (has(target.Definitions, k) == old(has(target.Definitions, k)))
-//@   loop 0 invariant [C03,C02,C09] forall k string :: triggers(has(target.Definitions, k)) && (has(target.Definitions, k) == old(has(target.Definitions, k)))
-//@   ensures  [C03,C02,C09] definitions-marks-kept @@ forall k string :: triggers(has(target.Definitions, k)) && (has(target.Definitions, k) && old(esDone[skey(target.Definitions[k])]) ==> esDone[skey(target.Definitions[k])])
-//@   loop 0 invariant [C03,C02,C09] forall k string :: triggers(has(target.Definitions, k)) && (has(target.Definitions, k) && old(esDone[skey(target.Definitions[k])]) ==> esDone[skey(target.Definitions[k])])
-//@   loop 0 invariant [C03,C02,C09] cur_target.Items == target.Items && (forall j int :: triggers(addr(target.Items.Schemas[j])) && (0 <= j && j <= $i0 - 1 ==> esDone[skey(target.Items.Schemas[j])]))
-//@   loop 0 invariant [C03,C02,C09] forall x int :: old(esDone[x]) ==> esDone[x]
-//@   loop 0 invariant [C03,C02,C09] old(strict(resolver)) && target.Items.Schema != nil ==> esDone[skey(*target.Items.Schema)]
+//@   ensures  [C03,C02,C09,C08] same-schema-returned @@ result1 == nil ==> *result0 == target
+//@   ensures  [C03,C02,C09,C08] items-visited @@ old(strict(resolver)) && result1 == nil ==> itemsDone(*result0)
+//@   ensures  [C03,C02,C09,C08] definitions-domain-kept @@ forall k string :: triggers(has(target.Definitions, k)) && (has(target.Definitions, k) == old(has(target.Definitions, k)))
+//@   loop 0 invariant [C03,C02,C09,C08] forall k string :: triggers(has(target.Definitions, k)) && (has(target.Definitions, k) == old(has(target.Definitions, k)))
+//@   ensures  [C03,C02,C09,C08] definitions-marks-kept @@ forall k string :: triggers(has(target.Definitions, k)) && (has(target.Definitions, k) && old(esDone[skey(target.Definitions[k])]) ==> esDone[skey(target.Definitions[k])])
+//@   loop 0 invariant [C03,C02,C09,C08] forall k string :: triggers(has(target.Definitions, k)) && (has(target.Definitions, k) && old(esDone[skey(target.Definitions[k])]) ==> esDone[skey(target.Definitions[k])])
+//@   loop 0 invariant [C03,C02,C09,C08] cur_target.Items == target.Items && (forall j int :: triggers(addr(target.Items.Schemas[j])) && (0 <= j && j <= $i0 - 1 ==> esDone[skey(target.Items.Schemas[j])]))
+//@   loop 0 invariant [C03,C02,C09,C08] forall x int :: old(esDone[x]) ==> esDone[x]
+//@   loop 0 invariant [C03,C02,C09,C08] old(strict(resolver)) && target.Items.Schema != nil ==> esDone[skey(*target.Items.Schema)]
 
 // the scope a schema's own $ref is read in: its id when it has one, else the scope it is met in
 //@ define scopeOf(id string, basePath string) string = id != "" ? normURI((hasSuffix(id, "/") ? id + "placeholder.json" : id), basePath) : basePath
@@ -1027,70 +1027,70 @@ package spec
 //@   ensures  [C03] memo-monotone @@ forall k string :: old(has(resolver.context.circulars, k)) ==> has(resolver.context.circulars, k)
 //@   ensures  loaders-immutable @@ forall l *schemaLoader :: allocated(l) ==> l.root == old(l.root) && l.options == old(l.options) && l.cache == old(l.cache) && l.context == old(l.context)
 //@   ensures  string-elements-kept @@ strElemsKept(parentRefs)
-//@   ensures  [C03,C02,C09] definitions-visited @@ old(strict(resolver)) && result1 == nil && old(refStringV(target.Ref)) == "" && !old(isRootV(target.Ref)) ==> mapDone(result0.Definitions)
-//@   ensures  [C03,C02,C09] properties-visited @@ old(strict(resolver)) && result1 == nil && old(refStringV(target.Ref)) == "" && !old(isRootV(target.Ref)) ==> mapDone(result0.Properties)
-//@   ensures  [C03,C02,C09] pattern-properties-visited @@ old(strict(resolver)) && result1 == nil && old(refStringV(target.Ref)) == "" && !old(isRootV(target.Ref)) ==> mapDone(result0.PatternProperties)
-//@   loop 0 invariant [C03,C02,C09] forall x int :: old(esDone[x]) ==> esDone[x]
-//@   loop 0 invariant [C03,C02,C09] old(strict(resolver)) ==> (forall k string :: triggers($seen0[k]) && ($seen0[k] ==> esDone[skey(cur_target.Definitions[k])]))
-//@   loop 1 invariant [C03,C02,C09] forall x int :: old(esDone[x]) ==> esDone[x]
-//@   loop 2 invariant [C03,C02,C09] forall x int :: old(esDone[x]) ==> esDone[x]
-//@   loop 3 invariant [C03,C02,C09] forall x int :: old(esDone[x]) ==> esDone[x]
-//@   loop 4 invariant [C03,C02,C09] forall x int :: old(esDone[x]) ==> esDone[x]
-//@   loop 5 invariant [C03,C02,C09] forall x int :: old(esDone[x]) ==> esDone[x]
-//@   loop 6 invariant [C03,C02,C09] forall x int :: old(esDone[x]) ==> esDone[x]
-//@   loop 1 invariant [C03,C02,C09] old(strict(resolver)) ==> mapDone(cur_target.Definitions)
-//@   loop 2 invariant [C03,C02,C09] old(strict(resolver)) ==> mapDone(cur_target.Definitions)
-//@   loop 3 invariant [C03,C02,C09] old(strict(resolver)) ==> mapDone(cur_target.Definitions)
-//@   loop 4 invariant [C03,C02,C09] old(strict(resolver)) ==> mapDone(cur_target.Definitions)
-//@   loop 4 invariant [C03,C02,C09] old(strict(resolver)) ==> (forall k string :: triggers($seen4[k]) && ($seen4[k] ==> esDone[skey(cur_target.Properties[k])]))
-//@   loop 5 invariant [C03,C02,C09] old(strict(resolver)) ==> mapDone(cur_target.Definitions)
-//@   loop 5 invariant [C03,C02,C09] old(strict(resolver)) ==> mapDone(cur_target.Properties)
-//@   loop 5 invariant [C03,C02,C09] old(strict(resolver)) ==> (forall k string :: triggers($seen5[k]) && ($seen5[k] ==> esDone[skey(cur_target.PatternProperties[k])]))
-//@   loop 6 invariant [C03,C02,C09] old(strict(resolver)) ==> mapDone(cur_target.Definitions)
-//@   loop 6 invariant [C03,C02,C09] old(strict(resolver)) ==> mapDone(cur_target.Properties)
-//@   loop 6 invariant [C03,C02,C09] old(strict(resolver)) ==> mapDone(cur_target.PatternProperties)
-//@   loop 1 invariant [C03,C02,C09] old(strict(resolver)) ==> itemsTupleDone(cur_target)
-//@   loop 1 invariant [C03,C02,C09] old(strict(resolver)) ==> sliceDone(cur_target.AllOf, $i1)
-//@   loop 2 invariant [C03,C02,C09] old(strict(resolver)) ==> itemsTupleDone(cur_target)
-//@   loop 2 invariant [C03,C02,C09] old(strict(resolver)) ==> sliceDone(cur_target.AllOf, len(cur_target.AllOf))
-//@   loop 2 invariant [C03,C02,C09] old(strict(resolver)) ==> sliceDone(cur_target.AnyOf, $i2)
-//@   loop 3 invariant [C03,C02,C09] old(strict(resolver)) ==> itemsTupleDone(cur_target)
-//@   loop 3 invariant [C03,C02,C09] old(strict(resolver)) ==> sliceDone(cur_target.AllOf, len(cur_target.AllOf))
-//@   loop 3 invariant [C03,C02,C09] old(strict(resolver)) ==> sliceDone(cur_target.AnyOf, len(cur_target.AnyOf))
-//@   loop 3 invariant [C03,C02,C09] old(strict(resolver)) ==> sliceDone(cur_target.OneOf, $i3)
-//@   loop 4 invariant [C03,C02,C09] old(strict(resolver)) ==> itemsTupleDone(cur_target)
-//@   loop 4 invariant [C03,C02,C09] old(strict(resolver)) ==> sliceDone(cur_target.AllOf, len(cur_target.AllOf))
-//@   loop 4 invariant [C03,C02,C09] old(strict(resolver)) ==> sliceDone(cur_target.AnyOf, len(cur_target.AnyOf))
-//@   loop 4 invariant [C03,C02,C09] old(strict(resolver)) ==> sliceDone(cur_target.OneOf, len(cur_target.OneOf))
-//@   loop 5 invariant [C03,C02,C09] old(strict(resolver)) ==> itemsTupleDone(cur_target)
-//@   loop 5 invariant [C03,C02,C09] old(strict(resolver)) ==> sliceDone(cur_target.AllOf, len(cur_target.AllOf))
-//@   loop 5 invariant [C03,C02,C09] old(strict(resolver)) ==> sliceDone(cur_target.AnyOf, len(cur_target.AnyOf))
-//@   loop 5 invariant [C03,C02,C09] old(strict(resolver)) ==> sliceDone(cur_target.OneOf, len(cur_target.OneOf))
-//@   loop 6 invariant [C03,C02,C09] old(strict(resolver)) ==> itemsTupleDone(cur_target)
-//@   loop 6 invariant [C03,C02,C09] old(strict(resolver)) ==> sliceDone(cur_target.AllOf, len(cur_target.AllOf))
-//@   loop 6 invariant [C03,C02,C09] old(strict(resolver)) ==> sliceDone(cur_target.AnyOf, len(cur_target.AnyOf))
-//@   loop 6 invariant [C03,C02,C09] old(strict(resolver)) ==> sliceDone(cur_target.OneOf, len(cur_target.OneOf))
-//@   ensures  [C03,C02,C09] all-of-visited @@ old(strict(resolver)) && result1 == nil && old(refStringV(target.Ref)) == "" && !old(isRootV(target.Ref)) ==> sliceDone(result0.AllOf, len(result0.AllOf))
-//@   ensures  [C03,C02,C09] any-of-visited @@ old(strict(resolver)) && result1 == nil && old(refStringV(target.Ref)) == "" && !old(isRootV(target.Ref)) ==> sliceDone(result0.AnyOf, len(result0.AnyOf))
-//@   ensures  [C03,C02,C09] one-of-visited @@ old(strict(resolver)) && result1 == nil && old(refStringV(target.Ref)) == "" && !old(isRootV(target.Ref)) ==> sliceDone(result0.OneOf, len(result0.OneOf))
-//@   ensures  [C03,C02,C09] items-tuple-visited @@ old(strict(resolver)) && result1 == nil && old(refStringV(target.Ref)) == "" && !old(isRootV(target.Ref)) ==> itemsTupleDone(*result0)
-//@   loop 1 invariant [C03,C02,C09] old(strict(resolver)) ==> (cur_target.Items != nil && cur_target.Items.Schema != nil ==> esDone[skey(*cur_target.Items.Schema)])
-//@   loop 2 invariant [C03,C02,C09] old(strict(resolver)) ==> (cur_target.Items != nil && cur_target.Items.Schema != nil ==> esDone[skey(*cur_target.Items.Schema)])
-//@   loop 3 invariant [C03,C02,C09] old(strict(resolver)) ==> (cur_target.Items != nil && cur_target.Items.Schema != nil ==> esDone[skey(*cur_target.Items.Schema)])
-//@   loop 4 invariant [C03,C02,C09] old(strict(resolver)) ==> (cur_target.Items != nil && cur_target.Items.Schema != nil ==> esDone[skey(*cur_target.Items.Schema)])
-//@   loop 4 invariant [C03,C02,C09] old(strict(resolver)) ==> notDone(cur_target)
-//@   loop 5 invariant [C03,C02,C09] old(strict(resolver)) ==> (cur_target.Items != nil && cur_target.Items.Schema != nil ==> esDone[skey(*cur_target.Items.Schema)])
-//@   loop 5 invariant [C03,C02,C09] old(strict(resolver)) ==> notDone(cur_target)
-//@   loop 5 invariant [C03,C02,C09] old(strict(resolver)) ==> addPropsDone(cur_target)
-//@   loop 6 invariant [C03,C02,C09] old(strict(resolver)) ==> (cur_target.Items != nil && cur_target.Items.Schema != nil ==> esDone[skey(*cur_target.Items.Schema)])
-//@   loop 6 invariant [C03,C02,C09] old(strict(resolver)) ==> notDone(cur_target)
-//@   loop 6 invariant [C03,C02,C09] old(strict(resolver)) ==> addPropsDone(cur_target)
-//@   ensures  [C03,C02,C09] items-visited @@ old(strict(resolver)) && result1 == nil && old(refStringV(target.Ref)) == "" && !old(isRootV(target.Ref)) ==> (result0.Items != nil && result0.Items.Schema != nil ==> esDone[skey(*result0.Items.Schema)])
-//@   ensures  [C03,C02,C09] not-visited @@ old(strict(resolver)) && result1 == nil && old(refStringV(target.Ref)) == "" && !old(isRootV(target.Ref)) ==> notDone(*result0)
-//@   ensures  [C03,C02,C09] additional-properties-visited @@ old(strict(resolver)) && result1 == nil && old(refStringV(target.Ref)) == "" && !old(isRootV(target.Ref)) ==> addPropsDone(*result0)
-//@   loop 6 invariant [C03,C02,C09] old(strict(resolver)) ==> (forall k string :: triggers($seen6[k]) && ($seen6[k] && cur_target.Dependencies[k].Schema != nil ==> esDone[skey(*cur_target.Dependencies[k].Schema)]))
-//@   ensures  [C03,C02,C09] dependencies-visited @@ old(strict(resolver)) && result1 == nil && old(refStringV(target.Ref)) == "" && !old(isRootV(target.Ref)) ==> depsDone(result0.Dependencies)
-//@   ensures  [C03,C02,C09] additional-items-visited @@ old(strict(resolver)) && result1 == nil && old(refStringV(target.Ref)) == "" && !old(isRootV(target.Ref)) ==> addItemsDone(*result0)
+//@   ensures  [C03,C02,C09,C08] definitions-visited @@ old(strict(resolver)) && result1 == nil && old(refStringV(target.Ref)) == "" && !old(isRootV(target.Ref)) ==> mapDone(result0.Definitions)
+//@   ensures  [C03,C02,C09,C08] properties-visited @@ old(strict(resolver)) && result1 == nil && old(refStringV(target.Ref)) == "" && !old(isRootV(target.Ref)) ==> mapDone(result0.Properties)
+//@   ensures  [C03,C02,C09,C08] pattern-properties-visited @@ old(strict(resolver)) && result1 == nil && old(refStringV(target.Ref)) == "" && !old(isRootV(target.Ref)) ==> mapDone(result0.PatternProperties)
+//@   loop 0 invariant [C03,C02,C09,C08] forall x int :: old(esDone[x]) ==> esDone[x]
+//@   loop 0 invariant [C03,C02,C09,C08] old(strict(resolver)) ==> (forall k string :: triggers($seen0[k]) && ($seen0[k] ==> esDone[skey(cur_target.Definitions[k])]))
+//@   loop 1 invariant [C03,C02,C09,C08] forall x int :: old(esDone[x]) ==> esDone[x]
+//@   loop 2 invariant [C03,C02,C09,C08] forall x int :: old(esDone[x]) ==> esDone[x]
+//@   loop 3 invariant [C03,C02,C09,C08] forall x int :: old(esDone[x]) ==> esDone[x]
+//@   loop 4 invariant [C03,C02,C09,C08] forall x int :: old(esDone[x]) ==> esDone[x]
+//@   loop 5 invariant [C03,C02,C09,C08] forall x int :: old(esDone[x]) ==> esDone[x]
+//@   loop 6 invariant [C03,C02,C09,C08] forall x int :: old(esDone[x]) ==> esDone[x]
+//@   loop 1 invariant [C03,C02,C09,C08] old(strict(resolver)) ==> mapDone(cur_target.Definitions)
+//@   loop 2 invariant [C03,C02,C09,C08] old(strict(resolver)) ==> mapDone(cur_target.Definitions)
+//@   loop 3 invariant [C03,C02,C09,C08] old(strict(resolver)) ==> mapDone(cur_target.Definitions)
+//@   loop 4 invariant [C03,C02,C09,C08] old(strict(resolver)) ==> mapDone(cur_target.Definitions)
+//@   loop 4 invariant [C03,C02,C09,C08] old(strict(resolver)) ==> (forall k string :: triggers($seen4[k]) && ($seen4[k] ==> esDone[skey(cur_target.Properties[k])]))
+//@   loop 5 invariant [C03,C02,C09,C08] old(strict(resolver)) ==> mapDone(cur_target.Definitions)
+//@   loop 5 invariant [C03,C02,C09,C08] old(strict(resolver)) ==> mapDone(cur_target.Properties)
+//@   loop 5 invariant [C03,C02,C09,C08] old(strict(resolver)) ==> (forall k string :: triggers($seen5[k]) && ($seen5[k] ==> esDone[skey(cur_target.PatternProperties[k])]))
+//@   loop 6 invariant [C03,C02,C09,C08] old(strict(resolver)) ==> mapDone(cur_target.Definitions)
+//@   loop 6 invariant [C03,C02,C09,C08] old(strict(resolver)) ==> mapDone(cur_target.Properties)
+//@   loop 6 invariant [C03,C02,C09,C08] old(strict(resolver)) ==> mapDone(cur_target.PatternProperties)
+//@   loop 1 invariant [C03,C02,C09,C08] old(strict(resolver)) ==> itemsTupleDone(cur_target)
+//@   loop 1 invariant [C03,C02,C09,C08] old(strict(resolver)) ==> sliceDone(cur_target.AllOf, $i1)
+//@   loop 2 invariant [C03,C02,C09,C08] old(strict(resolver)) ==> itemsTupleDone(cur_target)
+//@   loop 2 invariant [C03,C02,C09,C08] old(strict(resolver)) ==> sliceDone(cur_target.AllOf, len(cur_target.AllOf))
+//@   loop 2 invariant [C03,C02,C09,C08] old(strict(resolver)) ==> sliceDone(cur_target.AnyOf, $i2)
+//@   loop 3 invariant [C03,C02,C09,C08] old(strict(resolver)) ==> itemsTupleDone(cur_target)
+//@   loop 3 invariant [C03,C02,C09,C08] old(strict(resolver)) ==> sliceDone(cur_target.AllOf, len(cur_target.AllOf))
+//@   loop 3 invariant [C03,C02,C09,C08] old(strict(resolver)) ==> sliceDone(cur_target.AnyOf, len(cur_target.AnyOf))
+//@   loop 3 invariant [C03,C02,C09,C08] old(strict(resolver)) ==> sliceDone(cur_target.OneOf, $i3)
+//@   loop 4 invariant [C03,C02,C09,C08] old(strict(resolver)) ==> itemsTupleDone(cur_target)
+//@   loop 4 invariant [C03,C02,C09,C08] old(strict(resolver)) ==> sliceDone(cur_target.AllOf, len(cur_target.AllOf))
+//@   loop 4 invariant [C03,C02,C09,C08] old(strict(resolver)) ==> sliceDone(cur_target.AnyOf, len(cur_target.AnyOf))
+//@   loop 4 invariant [C03,C02,C09,C08] old(strict(resolver)) ==> sliceDone(cur_target.OneOf, len(cur_target.OneOf))
+//@   loop 5 invariant [C03,C02,C09,C08] old(strict(resolver)) ==> itemsTupleDone(cur_target)
+//@   loop 5 invariant [C03,C02,C09,C08] old(strict(resolver)) ==> sliceDone(cur_target.AllOf, len(cur_target.AllOf))
+//@   loop 5 invariant [C03,C02,C09,C08] old(strict(resolver)) ==> sliceDone(cur_target.AnyOf, len(cur_target.AnyOf))
+//@   loop 5 invariant [C03,C02,C09,C08] old(strict(resolver)) ==> sliceDone(cur_target.OneOf, len(cur_target.OneOf))
+//@   loop 6 invariant [C03,C02,C09,C08] old(strict(resolver)) ==> itemsTupleDone(cur_target)
+//@   loop 6 invariant [C03,C02,C09,C08] old(strict(resolver)) ==> sliceDone(cur_target.AllOf, len(cur_target.AllOf))
+//@   loop 6 invariant [C03,C02,C09,C08] old(strict(resolver)) ==> sliceDone(cur_target.AnyOf, len(cur_target.AnyOf))
+//@   loop 6 invariant [C03,C02,C09,C08] old(strict(resolver)) ==> sliceDone(cur_target.OneOf, len(cur_target.OneOf))
+//@   ensures  [C03,C02,C09,C08] all-of-visited @@ old(strict(resolver)) && result1 == nil && old(refStringV(target.Ref)) == "" && !old(isRootV(target.Ref)) ==> sliceDone(result0.AllOf, len(result0.AllOf))
+//@   ensures  [C03,C02,C09,C08] any-of-visited @@ old(strict(resolver)) && result1 == nil && old(refStringV(target.Ref)) == "" && !old(isRootV(target.Ref)) ==> sliceDone(result0.AnyOf, len(result0.AnyOf))
+//@   ensures  [C03,C02,C09,C08] one-of-visited @@ old(strict(resolver)) && result1 == nil && old(refStringV(target.Ref)) == "" && !old(isRootV(target.Ref)) ==> sliceDone(result0.OneOf, len(result0.OneOf))
+//@   ensures  [C03,C02,C09,C08] items-tuple-visited @@ old(strict(resolver)) && result1 == nil && old(refStringV(target.Ref)) == "" && !old(isRootV(target.Ref)) ==> itemsTupleDone(*result0)
+//@   loop 1 invariant [C03,C02,C09,C08] old(strict(resolver)) ==> (cur_target.Items != nil && cur_target.Items.Schema != nil ==> esDone[skey(*cur_target.Items.Schema)])
+//@   loop 2 invariant [C03,C02,C09,C08] old(strict(resolver)) ==> (cur_target.Items != nil && cur_target.Items.Schema != nil ==> esDone[skey(*cur_target.Items.Schema)])
+//@   loop 3 invariant [C03,C02,C09,C08] old(strict(resolver)) ==> (cur_target.Items != nil && cur_target.Items.Schema != nil ==> esDone[skey(*cur_target.Items.Schema)])
+//@   loop 4 invariant [C03,C02,C09,C08] old(strict(resolver)) ==> (cur_target.Items != nil && cur_target.Items.Schema != nil ==> esDone[skey(*cur_target.Items.Schema)])
+//@   loop 4 invariant [C03,C02,C09,C08] old(strict(resolver)) ==> notDone(cur_target)
+//@   loop 5 invariant [C03,C02,C09,C08] old(strict(resolver)) ==> (cur_target.Items != nil && cur_target.Items.Schema != nil ==> esDone[skey(*cur_target.Items.Schema)])
+//@   loop 5 invariant [C03,C02,C09,C08] old(strict(resolver)) ==> notDone(cur_target)
+//@   loop 5 invariant [C03,C02,C09,C08] old(strict(resolver)) ==> addPropsDone(cur_target)
+//@   loop 6 invariant [C03,C02,C09,C08] old(strict(resolver)) ==> (cur_target.Items != nil && cur_target.Items.Schema != nil ==> esDone[skey(*cur_target.Items.Schema)])
+//@   loop 6 invariant [C03,C02,C09,C08] old(strict(resolver)) ==> notDone(cur_target)
+//@   loop 6 invariant [C03,C02,C09,C08] old(strict(resolver)) ==> addPropsDone(cur_target)
+//@   ensures  [C03,C02,C09,C08] items-visited @@ old(strict(resolver)) && result1 == nil && old(refStringV(target.Ref)) == "" && !old(isRootV(target.Ref)) ==> (result0.Items != nil && result0.Items.Schema != nil ==> esDone[skey(*result0.Items.Schema)])
+//@   ensures  [C03,C02,C09,C08] not-visited @@ old(strict(resolver)) && result1 == nil && old(refStringV(target.Ref)) == "" && !old(isRootV(target.Ref)) ==> notDone(*result0)
+//@   ensures  [C03,C02,C09,C08] additional-properties-visited @@ old(strict(resolver)) && result1 == nil && old(refStringV(target.Ref)) == "" && !old(isRootV(target.Ref)) ==> addPropsDone(*result0)
+//@   loop 6 invariant [C03,C02,C09,C08] old(strict(resolver)) ==> (forall k string :: triggers($seen6[k]) && ($seen6[k] && cur_target.Dependencies[k].Schema != nil ==> esDone[skey(*cur_target.Dependencies[k].Schema)]))
+//@   ensures  [C03,C02,C09,C08] dependencies-visited @@ old(strict(resolver)) && result1 == nil && old(refStringV(target.Ref)) == "" && !old(isRootV(target.Ref)) ==> depsDone(result0.Dependencies)
+//@   ensures  [C03,C02,C09,C08] additional-items-visited @@ old(strict(resolver)) && result1 == nil && old(refStringV(target.Ref)) == "" && !old(isRootV(target.Ref)) ==> addItemsDone(*result0)
 //@   ensures  [C09] skip-schemas-rebases-in-scope @@ old(resolver.options.SkipSchemas) && old(refStringV(target.Ref)) != "" && result1 == nil ==>
 //@               refStringV(result0.Ref) == denormStr(canonStr(normURI(old(refStringV(target.Ref)), scopeOf(target.ID, basePath))), resolver.context.basePath, resolver.context.rootID)
 //@   ensures  stack-kept @@ forall i int :: 0 <= i && i < len(parentRefs) ==> parentRefs[i] == old(parentRefs[i])
@@ -1419,7 +1419,7 @@ package spec
 //@   property C01, C06, C07
 //@   assigns  nothing
 //@   ensures  [C01] non-nil @@ result1 == nil ==> result0 != nil
-//@   ensures  [C01] members @@ result1 == nil ==> isObj(jv(result0)) && (forall k string :: oCnt(jv(result0), k) == (has(v.Extensions, k) && isExtKey(k) ? 1 : 0))
+//@   ensures  [C01,C06] members @@ result1 == nil ==> isObj(jv(result0)) && (forall k string :: oCnt(jv(result0), k) == (has(v.Extensions, k) && isExtKey(k) ? 1 : 0))
 //@   ensures  [C01] values @@ result1 == nil ==> (forall k string :: has(v.Extensions, k) && isExtKey(k) ==> oVal(jv(result0), k) == encOf(v.Extensions[k]))
 //@   loop 0 invariant toser != nil && (forall k string :: has(toser, k) == ($seen0[k] && isExtKey(k)))
 //@   loop 0 invariant forall k string :: has(toser, k) ==> toser[k] == v.Extensions[k]
@@ -1653,7 +1653,7 @@ package spec
 //@   property C01, C06, C07
 //@   assigns  nothing
 //@   ensures  [C01] non-nil @@ result1 == nil ==> result0 != nil
-//@   ensures  [C01] members @@ result1 == nil ==> isObj(jv(result0)) && (forall k string :: oCnt(jv(result0), k) == ((has(p.Extensions, k) && isExtKey(k)) || (has(p.Paths, k) && isPathKey(k)) ? 1 : 0))
+//@   ensures  [C01,C06] members @@ result1 == nil ==> isObj(jv(result0)) && (forall k string :: oCnt(jv(result0), k) == ((has(p.Extensions, k) && isExtKey(k)) || (has(p.Paths, k) && isPathKey(k)) ? 1 : 0))
 //@   ensures  [C01] path-values @@ result1 == nil ==> (forall k string :: has(p.Paths, k) && isPathKey(k) ==> oVal(jv(result0), k) == encOf(p.Paths[k]))
 //@   ensures  [C01] extension-values @@ result1 == nil ==> (forall k string :: has(p.Extensions, k) && isExtKey(k) ==> oVal(jv(result0), k) == encOf(p.Extensions[k]))
 //@   loop 0 invariant pths != nil && (forall k string :: has(pths, k) == ($seen0[k] && isPathKey(k))) && (forall k string :: has(pths, k) ==> pths[k] == p.Paths[k])
@@ -1706,7 +1706,7 @@ package spec
 //@   property C01, C06, C19
 //@   assigns  nothing
 //@   ensures  [C01] non-nil @@ result1 == nil ==> result0 != nil
-//@   ensures  [C01] members @@ result1 == nil ==> isObj(jv(result0)) && (forall k string :: oCnt(jv(result0), k) == ((k == "default" && r.Default != nil) || (atoiOK(k) && itoa(atoi(k)) == k && has(r.StatusCodeResponses, atoi(k))) ? 1 : 0))
+//@   ensures  [C01,C06] members @@ result1 == nil ==> isObj(jv(result0)) && (forall k string :: oCnt(jv(result0), k) == ((k == "default" && r.Default != nil) || (atoiOK(k) && itoa(atoi(k)) == k && has(r.StatusCodeResponses, atoi(k))) ? 1 : 0))
 //@   ensures  [C01] default-value @@ result1 == nil && r.Default != nil ==> oVal(jv(result0), "default") == encOf(*r.Default)
 //@   ensures  [C01,C19] code-values @@ result1 == nil ==> (forall n int :: has(r.StatusCodeResponses, n) ==> oVal(jv(result0), itoa(n)) == encOf(r.StatusCodeResponses[n]))
 //@   loop 0 invariant toser != nil && (forall k string :: has(toser, k) == ((k == "default" && r.Default != nil) || (atoiOK(k) && itoa(atoi(k)) == k && $seen0[atoi(k)])))
@@ -1738,7 +1738,7 @@ package spec
 //@   property C01, C06, C19
 //@   assigns  nothing
 //@   ensures  [C01] non-nil @@ result1 == nil ==> result0 != nil
-//@   ensures  [C01] members @@ result1 == nil ==> isObj(jv(result0)) && (forall k string :: oCnt(jv(result0), k) == ((k == "default" && r.Default != nil) || (atoiOK(k) && itoa(atoi(k)) == k && has(r.StatusCodeResponses, atoi(k))) || (has(r.Extensions, k) && isExtKey(k)) ? 1 : 0))
+//@   ensures  [C01,C06] members @@ result1 == nil ==> isObj(jv(result0)) && (forall k string :: oCnt(jv(result0), k) == ((k == "default" && r.Default != nil) || (atoiOK(k) && itoa(atoi(k)) == k && has(r.StatusCodeResponses, atoi(k))) || (has(r.Extensions, k) && isExtKey(k)) ? 1 : 0))
 //@   ensures  [C01] default-value @@ result1 == nil && r.Default != nil ==> oVal(jv(result0), "default") == encOf(*r.Default)
 //@   ensures  [C01,C19] code-values @@ result1 == nil ==> (forall n int :: has(r.StatusCodeResponses, n) ==> oVal(jv(result0), itoa(n)) == encOf(r.StatusCodeResponses[n]))
 //@   ensures  [C01] extension-values @@ result1 == nil ==> (forall k string :: has(r.Extensions, k) && isExtKey(k) ==> oVal(jv(result0), k) == encOf(r.Extensions[k]))
